@@ -66,10 +66,16 @@ def run_batch(solver, preamble, queries, timeout_s=60):
             body = m.group(1)
             res['raw'] = body[:2000]
             lines = [l.strip() for l in body.strip().splitlines() if l.strip()]
-            if '(error' in body and 'model is not available' not in body:
+            # an error printed BEFORE the verdict means an assertion was not understood (the verdict is then
+            # about a weaker formula): inconclusive.  Errors after `unsat`/`unknown` come from the get-value
+            # commands that follow every check-sat and are expected.
+            idx = next((k for k, l in enumerate(lines) if l in ('sat', 'unsat', 'unknown', 'timeout')), None)
+            if idx is None or any('(error' in l for l in lines[:idx]):
                 res['status'] = 'error'
-            elif lines and lines[0] in ('sat', 'unsat', 'unknown', 'timeout'):
-                res['status'] = lines[0] if lines[0] != 'timeout' else 'unknown'
+            elif lines[idx] == 'sat' and any('(error' in l for l in lines[idx + 1:]):
+                res['status'] = 'error'
+            else:
+                res['status'] = lines[idx] if lines[idx] != 'timeout' else 'unknown'
             if res['status'] == 'sat':
                 for v in values:
                     mm = re.search(r'\(\(%s\s+(.*?)\)\)\s*$' % re.escape(v), body, re.M | re.S)
